@@ -1,0 +1,14 @@
+//go:build verif
+
+// Contracts for the deductive verifier in /verif (govc). This file contains
+// comments only; it is compiled only with the build tag "verif" and adds no
+// code to the package.
+
+package bluemonday
+
+//@ func (*bluemonday.Policy).allowNoAttrs
+//@   requires p != nil
+//@   ensures result == bareOK(p, elementName)
+//@   loop 0 "for _, r := range p.setOfElementsMatchingAllowedWithoutAttrs"
+//@     invariant !(elementName in p.setOfElementsAllowedWithoutAttrs)
+//@     invariant forall j int :: 0 <= j && j <= rangeindex ==> !rmatch(p.setOfElementsMatchingAllowedWithoutAttrs[j], elementName)
